@@ -46,6 +46,9 @@ CONSTANTS ClipFiles,   \* set of <<fr, te_p, te_q, tden, ch, N>> : files on whic
                        \*        implementation as found: finding candidate, history/MC_AudioAxis_found_chain.*) | TRUE: all
           StaleRate,   \* FALSE: each resample takes the rate of its input from the input's advertised step (the implementation) |
                        \* TRUE: from a samplerate attribute that resample copies unchanged (seeded change C15-r10sb1)
+          OptSpecSrcs, \* the sources of SpecSrcs on which the option combinations padded x boundary are enumerated (windows up to OptMaxW)
+          OptMaxW,
+          DropBoundary,\* FALSE: boundary is passed on as given (the implementation) | TRUE: dropped (None) when padded = False (seeded C15-r11sb1)
           AliasAttrs   \* FALSE: resample builds fresh attributes for the new time axis (the implementation) |
                        \* TRUE: it writes step = 1/target into the live attrs of the source's time coordinate (seeded change C15-sb2)
 VARIABLES c, pc, m
@@ -55,7 +58,8 @@ vars == <<c, pc, m>>
 Mk(kind, f, s, e, src, w, h, tg) ==
     [kind |-> kind, fr |-> f[1], te |-> <<f[2], f[3]>>, tden |-> f[4], ch |-> f[5], N |-> f[6],
      s |-> s, e |-> e, src |-> src, w |-> w, h |-> h, target |-> tg, pre |-> 0,
-     hist |-> "none", N2 |-> f[6], base2 |-> 0, decl |-> 0, ops |-> <<>>]
+     hist |-> "none", N2 |-> f[6], base2 |-> 0, decl |-> 0, ops |-> <<>>, padded |-> 1, bnd |-> "default"]
+SpecOpts == {<<pd, b>> : pd \in {0, 1}, b \in {"default", "zeros", "even", "none"}} \ {<<1, "default">>}
 WithDecl(k, d) == [k EXCEPT !.decl = d]
 MaxTickD(f) == ((f[6] + Pad) * f[4]) \div f[7] + 1
 WithPre(k, p) == [k EXCEPT !.pre = p]
@@ -79,6 +83,7 @@ m0 == [off |-> 0, len |-> 0, pos |-> 0, rows |-> <<>>, rate |-> 0, t0 |-> 0, d |
        fd |-> <<>>, fstep |-> 0, np0 |-> 0, np |-> 0, nov |-> 0, num |-> 0, raised |-> "",
        pass |-> 1, fN |-> 0, fbase |-> 0,     \* which load this is; the file as it is now: frames, first value - 1
        cache |-> <<>>,                         \* ReadCache variant: <<rows>> of the cached block (<<>>: nothing cached)
+       t0h |-> 0,                              \* spectrogram: first time coordinate in half samples
        k |-> 1, crate |-> 0, cd |-> <<>>, cstep |-> 0,   \* chains: next operation, advertised rate of the current array, final axis
        sstep |-> <<1, 1>>,        \* the step the SOURCE array advertises, in samples (a rational <<p, q>>)
        sobs |-> <<0, 0, 0>>]      \* re-observation of the source after the call(s): <<frames, p, q>>
@@ -97,6 +102,8 @@ Init == /\ pc = "start"
                  \E p \in {0} \cup (IF f \in PreSpecSrcs /\ h <= w THEN Pres ELSE {}) :
                     LET k == Mk("spec", f, f[7], f[8], SrcKind(f), w, h, 0)
                     IN  PreNum(k, p) <= MaxNum /\ c = WithPre(k, p)
+           \/ \E f \in OptSpecSrcs : \E w \in 1..OptMaxW : \E h \in 1..(2 * w) : \E op \in SpecOpts :
+                 c = [Mk("spec", f, f[7], f[8], SrcKind(f), w, h, 0) EXCEPT !.padded = op[1], !.bnd = op[2]]
            \/ \E f \in ResSrcs : \E tg \in Targets : \E p \in {0} \cup Pres :
                  LET k == Mk("resamp", f, f[7], f[8], SrcKind(f), 0, 0, tg)
                  IN  ImplNum(k, SrcN(k)) <= MaxNum /\ PreNum(k, p) <= MaxNum /\ c = WithPre(k, p)
@@ -201,13 +208,16 @@ SpecRaise == /\ pc = "triage" /\ ImplSpecRaises(c, SrcN(c)) = TRUE   \* (= TRUE:
 \* time unit 1/(sr*tden): one sample = tden, requested hop = h*sr; frequency unit sr/(np*npadv): bin k = k*npadv
 SpecFrames == /\ pc = "triage" /\ ~ImplSpecRaises(c, SrcN(c))
               /\ LET hop   == m.np - m.nov
-                     F     == ImplFrames(c, SrcN(c))
+                     noext == c.bnd = "none" \/ (DropBoundary /\ c.padded = 0)
+                     F     == ImplFramesB(c, SrcN(c), noext, c.padded = 1)
                      npadv == IF WinClamp THEN m.np ELSE m.np0           \* the nperseg the step attributes are computed from
                  IN  m' = [m EXCEPT !.len = F,
                                     !.d = [i \in 1..F |-> (i - 1) * hop * c.tden],
                                     !.step = IF SpecStep = "requested" THEN c.h * Sr(c) ELSE (npadv - m.nov) * c.tden,
                                     !.fd = [k \in 1..ImplBins(c, SrcN(c)) |-> (k - 1) * npadv],
-                                    !.fstep = m.np]
+                                    !.fstep = m.np,
+                                    \* scipy: arange(nperseg/2, ...)/fs, minus (nperseg/2)/fs when the signal was extended
+                                    !.t0h = 2 * SrcOff(c) + (IF noext THEN m.np ELSE 0)]
               /\ pc' = "reobs" /\ Stay
 
 (* ---- chains of resample on one loaded recording: one action per operation.  Each resample computes
@@ -262,6 +272,7 @@ Q_ChainPairs  == {<<4, 6>>, <<4, 2>>, <<4, 12>>, <<2, 3>>, <<16, 12>>, <<5, 4>>,
 \* as found (history): inexact intermediate lengths
 F_ChainSrcs   == Q_ChainSrcs \cup {<<8, 1, 1, 32, 1, 13>>, <<16000, 1, 1, 64000, 1, 101>>}
 F_ChainPairs  == Q_ChainPairs \cup {<<4, 24>>, <<8000, 48000>>}
+Q_OptSpecSrcs == {<<8, 1, 1, 32, 1, 12, 0, 0>>, <<8, 1, 1, 32, 2, 16, 10, 50>>}
 Q_Pres        == {3, 12, 22050}
 Q_PreSpecSrcs == {<<8, 1, 1, 32, 2, 16, 10, 50>>, <<22050, 1, 1, 88200, 1, 12, 0, 0>>}
 Q_Targets  == {1, 2, 3, 4, 5, 6, 7, 8, 9, 10, 12, 16, 20, 186, 279, 22050, 44100, 48000}
@@ -299,6 +310,7 @@ ImplChainAxisAll   == (pc = "done" /\ c.kind = "chain") => AxisReqI(m.cd, m.cste
 ImplSourceTruthful == c.kind \in {"resamp", "spec"} =>
                          /\ AxisWithinRatI(SrcN(c), m.sstep[1], m.sstep[2])
                          /\ pc = "done" => m.sobs[1] = SrcN(c) /\ AxisWithinRatI(m.sobs[1], m.sobs[2], m.sobs[3])
+ImplSpecStartsAtSource == (pc = "done" /\ c.kind = "spec" /\ c.bnd # "none") => m.t0h = 2 * SrcOff(c)
 ImplStartsAtSource == pc = "done" => m.t0 = (IF c.kind = "rec" THEN 0 ELSE IF c.kind = "clip" THEN OffNum(c) \div c.tden ELSE SrcOff(c))
 \* resample: the drift is bounded by one advertised step whatever the rates (the quantity TLC checks in ImplTimeAxis)
 ResampleDriftBounded == (pc = "done" /\ c.kind = "resamp") =>
